@@ -242,6 +242,26 @@ def completion_order_rule(ck, P):
                     for p_ in reversed(parents):
                         if p_.get("k") == "mcall" and ir.contains(p_["recv"], lambda w: w is y) and p_.get("name") in ("zip", "enumerate"):
                             bad.append("%s: `%s` directly after `%s` at %s" % (b["q"].rsplit("::", 1)[-1], p_["name"], y.get("name"), ir.loc(p_)))
+    # a single-tile LOOKUP returns one value: if it gathers candidates in completion order (FuturesUnordered, buffer_unordered, select ...)
+    # and lets the first one that arrives win, which tile comes back depends on which source answered first - i.e. on whether another
+    # caller holds the lock one of the sources needs.  No lookup of a reader or a pipeline operation uses a completion-ordered collection.
+    n_look, racy = 0, []
+    for b in P.bodies:
+        if not b.get("trait_item", "").endswith(("TilesReaderTrait::get_tile_data", "OperationTrait::get_tile_data")) or "::tests::" in b["q"]:
+            continue
+        if b.get("crate") not in ("versatiles_container", "versatiles_pipeline"):
+            continue
+        n_look += 1
+        for y in ir.walk_nodes(b["body"]):
+            t = (y.get("t") or "") + (y.get("q") or "")
+            if ("FuturesUnordered" in t or "SelectAll" in t or "JoinSet" in t or (y.get("k") == "mcall" and y.get("name") in ("buffer_unordered", "try_buffer_unordered", "for_each_concurrent")) or
+                    "select_biased" in (y.get("m") or "") or "futures::select" in (y.get("m") or "") or "tokio::select" in (y.get("m") or "")):
+                racy.append("%s at %s" % (b["q"].split(" as ")[0].rsplit("::", 2)[-2] if " as " in b["q"] else b["q"].rsplit("::", 2)[-2], ir.loc(y)))
+                break
+    ck.anchor("R-COMPLETION-ORDER", "single-tile lookups (readers and operations)", n_look, 10)
+    ck.check(not racy, "R-COMPLETION-ORDER", "lookups|no-completion-order", "no single-tile lookup gathers its candidates in completion order (%d lookups)" % n_look,
+             "a single-tile lookup consumes a completion-ordered collection (%s): which candidate wins depends on which future finishes first, so a call that contends "
+             "with another caller for a lock returns a different tile than the same call alone" % racy[:2])
     ck.check(not bad, "R-COMPLETION-ORDER", "readers|no-positional-pairing", "no reader pairs completion-ordered results with submission-ordered data by position (%d unordered collection site(s))" % n_unordered,
              "completion-ordered results are matched by position: %s — with a second caller contending for a lock the order differs and tiles get another tile's index or bytes" % bad[:2])
 
